@@ -78,6 +78,18 @@ def install(m):
         m.reached[args[0]] = OR(m.reached.get(args[0], False), alt.guard)
         return None
 
+    @reg("$verifAnd")
+    def vand(m, alt, fr, ins, args, work):
+        return AND(m.bool_of(args[0]), m.bool_of(args[1]))
+
+    @reg("$verifOr")
+    def vor(m, alt, fr, ins, args, work):
+        return OR(m.bool_of(args[0]), m.bool_of(args[1]))
+
+    @reg("$verifImplies")
+    def vimp(m, alt, fr, ins, args, work):
+        return OR(NOT(m.bool_of(args[0])), m.bool_of(args[1]))
+
     @reg("$verifSymbolic")
     def vsym(m, alt, fr, ins, args, work):
         return True
